@@ -42,6 +42,14 @@ def tagged_pids(run_id, exclude=()):
     return out
 
 
+def _ctxid(v):
+    """Context ids which JSON cannot carry (tuples, frozensets, ...) travel as {'py': '<literal>'}."""
+    if isinstance(v, dict) and set(v) == {'py'}:
+        import ast
+        return frozenset() if v['py'] == 'frozenset()' else ast.literal_eval(v['py'])
+    return v
+
+
 def _digest(v):
     """Long strings become 'str[N]:c' (c = the character they consist of, '?' if mixed)."""
     if isinstance(v, str) and len(v) > 1000:
@@ -115,6 +123,8 @@ class Script:
                 from pwv import statew
                 cls = getattr(statew, op['wcls'] + '_' + kind)
             kw = dict(op.get('ctor', {}))
+            if 'context' in kw:
+                kw['context'] = _ctxid(kw['context'])
             if kw.get('context') == '<c11-ctx>':
                 # a healthy client's worker inside the very context the faulty requests address
                 self.c11_record('worker-in-ctx')
@@ -494,7 +504,7 @@ class Script:
             target = getattr(targets, op['target'])
 
             def mk():
-                return RemoteContext(op['id'], host=host, target=target, args=op.get('args'), kwargs=op.get('kwargs'))
+                return RemoteContext(_ctxid(op['id']), host=host, target=target, args=op.get('args'), kwargs=op.get('kwargs'))
             st, val = self.raw(mk, op.get('timeout', 20))
             if st == 'hang':
                 return {'hang': True}
@@ -517,7 +527,7 @@ class Script:
                 with _s.socket(_s.AF_INET, _s.SOCK_STREAM) as sk:
                     sk.settimeout(10)
                     sk.connect(host)
-                    send_msg(sk, (op['id'], False))
+                    send_msg(sk, (_ctxid(op['id']), False))
                     send_msg(sk, None)
                     return recv_msg(sk)
             return self.call(f, 15)
